@@ -22,8 +22,29 @@
     fields_map                    not stated: `MDef.field?` is a definition of the model (last flattened field of a tag)
     (executable spec of the monitor) C19_spec_exec_sound, C19_spec_lookup, C19_monitor_guards,
                                   C19_monitor_msg_accepts, C19_monitor_load_accepts, C19_monitor_refused_accepts
+
+  The tree after the `fix:` that refuses circular component references (`buildWithS`, `buildS`; helper lemmas in
+  Qfx/Lemmas/DictCycle.lean).  Every clause above carries over through C19_checked_is_unchecked:
+    group_order, group_required   C19_group_order_checked, C19_group_order_header_checked, C19_group_order_trailer_checked
+    fields                        C19_fields_checked, C19_fields_header_checked, C19_fields_trailer_checked
+    required                      C19_required_checked, C19_required_header_checked, C19_required_trailer_checked
+    refuses_dangling              C19_refuses_dangling_checked
+    loads_wellformed              C19_loads_wellformed_checked (the circular-reference exit is never taken on a file
+                                  whose components expand)
+    messages                      C19_messages_checked
+    (monitor)                     C19_monitor_msg_accepts_checked, C19_monitor_load_accepts_checked,
+                                  C19_monitor_refused_accepts_checked
+    c09_cyclic_components (a clause of C09: no crash on circular components)
+                                  C19_no_overflow (the recursion budget `Ast.size + 1` is never exhausted, for EVERY
+                                  file), C19_no_overflow_fuel;
+                                  C19_cyclic_refused, C19_loaded_acyclic (a file with a component reaching itself is
+                                  never loaded — by either builder, with any budget: `Ast.size + 1` is an adequate
+                                  budget for `acyclicB`, C19_acyclic_budget_adequate);
+                                  C19_refusal_reason, C19_cyclic_refused_cycle, C19_cycle_iff (unique names and no
+                                  undefined reference: refused ⇔ `cycle` ⇔ some component reaches itself);
+                                  C19_cycle_witness (the unchanged tree overflows where the fixed one says `cycle`)
 -/
-import Qfx.Lemmas.Dict
+import Qfx.Lemmas.DictCycle
 open Qfx.Dict
 
 section
@@ -304,3 +325,188 @@ example : WFNames C19_a2 ∧ Dangling C19_a2 := by
   | field hf _ =>
     obtain ⟨f, hf, _⟩ := hf
     simp [C19_a2] at hf
+
+/-! # the tree after the `fix:` that refuses circular component references (`buildWithS`, `buildS`) -/
+
+section
+variable {ν : Type} [DecidableEq ν]
+
+/-- every dictionary built with the circular-reference check is built, identically, without it -/
+theorem C19_checked_is_unchecked (a : Ast ν) (fuel : Nat) (mk : List Part → MDef) (d : Dict ν)
+    (h : buildWithS a fuel mk = .ok d) : buildWith a fuel mk = .ok d :=
+  buildWithS_ok h
+
+theorem C19_checked_is_unchecked_build (a : Ast ν) (d : Dict ν) (h : buildS a = .ok d) : build a = .ok d :=
+  buildWithS_ok h
+
+/-! ## group_order / group_required, fields, required -/
+
+theorem C19_group_order_checked (a : Ast ν) (wf : WFNames a) (fuel : Nat) (d : Dict ν)
+    (h : buildWithS a fuel newMessageDef = .ok d) (mt : ν) (ms : List (Member ν)) (hm : MsgDef a mt ms) :
+    ∃ m, d.msg? mt = some m ∧ Expands a ms m.flat :=
+  C19_group_order a wf fuel d (buildWithS_ok h) mt ms hm
+
+theorem C19_group_order_header_checked (a : Ast ν) (wf : WFNames a) (fuel : Nat) (d : Dict ν)
+    (h : buildWithS a fuel newMessageDef = .ok d) (ms : List (Member ν)) (hm : a.header = some ms) :
+    ∃ m, d.header = some m ∧ Expands a ms m.flat :=
+  C19_group_order_header a wf fuel d (buildWithS_ok h) ms hm
+
+theorem C19_group_order_trailer_checked (a : Ast ν) (wf : WFNames a) (fuel : Nat) (d : Dict ν)
+    (h : buildWithS a fuel newMessageDef = .ok d) (ms : List (Member ν)) (hm : a.trailer = some ms) :
+    ∃ m, d.trailer = some m ∧ Expands a ms m.flat :=
+  C19_group_order_trailer a wf fuel d (buildWithS_ok h) ms hm
+
+theorem C19_fields_checked (a : Ast ν) (wf : WFNames a) (fuel : Nat) (d : Dict ν)
+    (h : buildWithS a fuel newMessageDef = .ok d) (mt : ν) (ms : List (Member ν)) (hm : MsgDef a mt ms) :
+    ∃ m, d.msg? mt = some m ∧ ∀ t, t ∈ m.tags ↔ Reach a mt t :=
+  C19_fields a wf fuel d (buildWithS_ok h) mt ms hm
+
+theorem C19_fields_header_checked (a : Ast ν) (wf : WFNames a) (fuel : Nat) (d : Dict ν)
+    (h : buildWithS a fuel newMessageDef = .ok d) (ms : List (Member ν)) (hm : a.header = some ms) :
+    ∃ m, d.header = some m ∧ ∀ t, t ∈ m.tags ↔ ReachM a ms t :=
+  C19_fields_header a wf fuel d (buildWithS_ok h) ms hm
+
+theorem C19_fields_trailer_checked (a : Ast ν) (wf : WFNames a) (fuel : Nat) (d : Dict ν)
+    (h : buildWithS a fuel newMessageDef = .ok d) (ms : List (Member ν)) (hm : a.trailer = some ms) :
+    ∃ m, d.trailer = some m ∧ ∀ t, t ∈ m.tags ↔ ReachM a ms t :=
+  C19_fields_trailer a wf fuel d (buildWithS_ok h) ms hm
+
+theorem C19_required_checked (a : Ast ν) (wf : WFNames a) (fuel : Nat) (d : Dict ν)
+    (h : buildWithS a fuel newMessageDef = .ok d) (mt : ν) (ms : List (Member ν)) (hm : MsgDef a mt ms) :
+    ∃ m, d.msg? mt = some m ∧ ∀ t, t ∈ m.reqTags ↔ Req a mt t :=
+  C19_required a wf fuel d (buildWithS_ok h) mt ms hm
+
+theorem C19_required_header_checked (a : Ast ν) (wf : WFNames a) (fuel : Nat) (d : Dict ν)
+    (h : buildWithS a fuel newMessageDef = .ok d) (ms : List (Member ν)) (hm : a.header = some ms) :
+    ∃ m, d.header = some m ∧ ∀ t, t ∈ m.reqTags ↔ ReqM a ms t :=
+  C19_required_header a wf fuel d (buildWithS_ok h) ms hm
+
+theorem C19_required_trailer_checked (a : Ast ν) (wf : WFNames a) (fuel : Nat) (d : Dict ν)
+    (h : buildWithS a fuel newMessageDef = .ok d) (ms : List (Member ν)) (hm : a.trailer = some ms) :
+    ∃ m, d.trailer = some m ∧ ∀ t, t ∈ m.reqTags ↔ ReqM a ms t :=
+  C19_required_trailer a wf fuel d (buildWithS_ok h) ms hm
+
+/-! ## refuses_dangling, messages -/
+
+theorem C19_refuses_dangling_checked (a : Ast ν) (wf : WFNames a) (fuel : Nat) (mk : List Part → MDef)
+    (hd : Dangling a) : ∀ d, buildWithS a fuel mk ≠ .ok d :=
+  fun d h => C19_refuses_dangling a wf fuel mk hd d (buildWithS_ok h)
+
+theorem C19_messages_checked (a : Ast ν) (fuel : Nat) (mk : List Part → MDef) (d : Dict ν)
+    (h : buildWithS a fuel mk = .ok d) :
+    (∀ mt, mt ∈ d.msgs.map (·.1) ↔ ∃ ms, MsgDef a mt ms) ∧
+    d.header.isSome = a.header.isSome ∧ d.trailer.isSome = a.trailer.isSome :=
+  C19_messages a fuel mk d (buildWithS_ok h)
+
+/-! ## loads_wellformed: on a file whose components expand, the circular-reference exit is never taken -/
+
+theorem C19_loads_wellformed_checked (a : Ast ν) (wf : WFNames a) (hd : ¬ Dangling a) (hac : acyclicB a = true) :
+    ∃ d, buildS a = .ok d := by
+  unfold acyclicB at hac
+  rw [List.all_eq_true] at hac
+  exact buildWithS_loads a wf hd (a.size + 1) (Nat.lt_succ_self _) hac newMessageDef
+
+/-! ## a file with a component that reaches itself is refused — and no budget is exhausted on the way -/
+
+/-- the budget `acyclicB` gives the naive expansion is adequate: a declared component that has a (finite) expansion
+    at all expands within `Ast.size + 1` -/
+theorem C19_acyclic_budget_adequate (a : Ast ν) (wf : WFNames a) (n : ν) (cms : List (Member ν))
+    (hc : CompDef a n cms) (fs : List FDef) (he : Expands a cms fs) :
+    (expandSpec a (a.size + 1) cms).isSome = true :=
+  expandSpec_comp_adequate wf (c := (n, cms)) hc he
+
+/-- whatever is loaded — by either builder, with any budget and either `NewMessageDef` — has no component
+    reaching itself -/
+theorem C19_loaded_acyclic (a : Ast ν) (wf : WFNames a) (fuel : Nat) (mk : List Part → MDef) (d : Dict ν)
+    (h : buildWith a fuel mk = .ok d ∨ buildWithS a fuel mk = .ok d) : acyclicB a = true := by
+  rcases h with h | h
+  · exact buildWith_acyclic wf h
+  · exact buildWith_acyclic wf (buildWithS_ok h)
+
+/-- (`¬ Dangling a` is not used: it is there to match the monitor's guard of `c09_cyclic_components`) -/
+theorem C19_cyclic_refused (a : Ast ν) (wf : WFNames a) (_hd : ¬ Dangling a) (hac : acyclicB a = false) :
+    ∀ d, buildS a ≠ .ok d := by
+  intro d h
+  have := buildWith_acyclic wf (buildWithS_ok h)
+  rw [hac] at this; cases this
+
+/-- the `fix:` removes the unbounded recursion: for EVERY file (no hypothesis on names, references or cycles) the
+    checked builder stays within the budget `Ast.size + 1` -/
+theorem C19_no_overflow (a : Ast ν) : buildS a ≠ .error .overflow :=
+  buildWithS_no_overflow a (a.size + 1) (Nat.le_succ _) newMessageDef
+
+theorem C19_no_overflow_fuel (a : Ast ν) (fuel : Nat) (hfuel : a.size ≤ fuel) (mk : List Part → MDef) :
+    buildWithS a fuel mk ≠ .error .overflow :=
+  buildWithS_no_overflow a fuel hfuel mk
+
+/-- a file with unique names and no undefined reference is refused only for a circular component reference -/
+theorem C19_refusal_reason (a : Ast ν) (wf : WFNames a) (hd : ¬ Dangling a) (e : BErr)
+    (h : buildS a = .error e) : e = .cycle := by
+  rcases buildWithS_error wf hd h with rfl | rfl
+  · exact absurd h (C19_no_overflow a)
+  · rfl
+
+/-- a file (unique names, no undefined reference) with a component that reaches itself is refused as circular -/
+theorem C19_cyclic_refused_cycle (a : Ast ν) (wf : WFNames a) (hd : ¬ Dangling a) (hac : acyclicB a = false) :
+    buildS a = .error .cycle := by
+  cases h : buildS a with
+  | ok d => exact absurd h (C19_cyclic_refused a wf hd hac d)
+  | error e => rw [C19_refusal_reason a wf hd e h]
+
+theorem C19_cycle_iff (a : Ast ν) (wf : WFNames a) (hd : ¬ Dangling a) :
+    buildS a = .error .cycle ↔ acyclicB a = false := by
+  constructor
+  · intro h
+    cases hac : acyclicB a with
+    | false => rfl
+    | true =>
+      obtain ⟨d, hd'⟩ := C19_loads_wellformed_checked a wf hd hac
+      rw [hd'] at h; cases h
+  · exact C19_cyclic_refused_cycle a wf hd
+
+/-! ## the monitor accepts the checked model -/
+
+theorem C19_monitor_msg_accepts_checked (a : Ast ν) (wf : WFNames a) (fuel f : Nat) (d : Dict ν)
+    (h : buildWithS a fuel newMessageDef = .ok d) (mt : ν) (ms : List (Member ν)) (hm : MsgDef a mt ms) :
+    ∃ m, d.msg? mt = some m ∧
+      monMsg a f ms { tags := m.tags, req := m.reqTags, fmapOK := true, flat := m.flat } = [] :=
+  C19_monitor_msg_accepts a wf fuel f d (buildWithS_ok h) mt ms hm
+
+theorem C19_monitor_load_accepts_checked (a : Ast ν) (wf : WFNames a) (fuel : Nat) (mk : List Part → MDef)
+    (d : Dict ν) (h : buildWithS a fuel mk = .ok d) :
+    monLoad a (.loaded (d.msgs.map (·.1)) d.header.isSome d.trailer.isSome) = [] :=
+  monLoad_loaded_silent wf (buildWithS_ok h)
+
+theorem C19_monitor_refused_accepts_checked (a : Ast ν) (e : BErr) (h : buildS a = .error e) :
+    monLoad a .refused = [] := by
+  unfold monLoad
+  simp only
+  split
+  · rename_i hwf
+    simp only [Bool.and_eq_true, Bool.not_eq_true'] at hwf
+    obtain ⟨⟨h1, h2⟩, h3⟩ := hwf
+    obtain ⟨d, hd⟩ := C19_loads_wellformed_checked a ((wfNamesB_iff a).1 h1)
+      (fun hdg => by rw [(danglingB_iff a).2 hdg] at h2; cases h2) h3
+    rw [hd] at h; cases h
+  · rfl
+
+end
+
+/-! ## closed witness: two components referring to each other -/
+
+/-- component 1 = [required component 2]; component 2 = [optional component 1]; one field, one message -/
+def C19_a4 : Ast Nat :=
+  { fields := [{ name := 20, num := 100, type := 0, enums := [] }]
+    comps := [(1, [.comp 2 true]), (2, [.comp 1 false])]
+    msgs := [(0, [.field 20 true])]
+    header := none
+    trailer := none }
+
+/-- the fixed tree refuses the file as circular; the unchanged tree recursed until the stack was exhausted -/
+theorem C19_cycle_witness :
+    buildS C19_a4 = .error .cycle ∧ build C19_a4 = .error .overflow ∧
+    WFNames C19_a4 ∧ ¬ Dangling C19_a4 ∧ acyclicB C19_a4 = false := by
+  refine ⟨obsErrIs_iff.1 (by decide), obsErrIs_iff.1 (by decide), by constructor <;> decide, fun hd => ?_, by decide⟩
+  have := (danglingB_iff C19_a4).2 hd
+  revert this
+  decide
